@@ -42,7 +42,7 @@ PROPS = {
     "C12": dict(extra=["enum", "genwrap"], profiles=["core", "alloc", "big"], level="proof", props=["C12", "SRCrel", "SRCops", "SRCalloc", "INVid", "INVrelations", "INVsiblings_range"]),
     "C13": dict(profiles=["value", "core"], level="proof", extra=["selfcheck", "determinism"], props=["C13", "SRCalloc", "SRCops", "INVarena", "INVnode"]),
     "C14": dict(profiles=["print"], level="proof", extra=["printdeep"], props=["C14", "SRCtrav", "INVdebug_pretty_print", "INVtraverse"]),
-    "C15": dict(profiles=[], level="proof", extra=["macro"]),
+    "C15": dict(profiles=[], level="proof", extra=["macro"], props=["C15", "INVmacros_lib"]),
     "C16": dict(profiles=["serde"], level="proof", props=["C16", "INVarena", "INVnode", "INVid"]),
     "C17": dict(profiles=[], level="translation_validation", extra=["features"], props=["C17", "INVlib"]),
     "C18": dict(profiles=[], level="proof", extra=["selfcheck", "autotraits"], props=["C18", "INVlib", "INVarena", "INVnode", "INVtraverse", "INVdebug_pretty_print"]),
